@@ -226,6 +226,56 @@ theorem decode_case_sensitive (k : Bytes) (v : JVal) (a b : List (Bytes × JVal)
   rw [lookup_insert_ne _ k v a b h1, lookup_insert_ne _ k v a b h2, lookup_insert_ne _ k v a b h3,
     lookup_insert_ne _ k v a b h4, lookup_insert_ne _ k v a b h5, lookup_insert_ne _ k v a b h6]
 
+/-- The `error` object is decoded case-sensitively too: a member of it whose name is not EXACTLY `code`,
+`message` or `data` has no influence on the decoded error, wherever it stands in the object. -/
+theorem asWErr_case_sensitive (k : Bytes) (v : JVal) (ea eb : List (Bytes × JVal)) (h : k ∉ wireErrorNames) :
+    asWErr (some (.obj (ea ++ (k, v) :: eb))) = asWErr (some (.obj (ea ++ eb))) := by
+  simp only [wireErrorNames, List.mem_cons, List.not_mem_nil, or_false, not_or] at h
+  obtain ⟨h1, h2, h3⟩ := h
+  simp only [asWErr, asRaw]
+  rw [lookup_insert_ne _ k v ea eb h1, lookup_insert_ne _ k v ea eb h2, lookup_insert_ne _ k v ea eb h3]
+
+/-- the member looked up: the last one of that name -/
+theorem lookup_at (n : Bytes) (x : JVal) (pre post : List (Bytes × JVal)) :
+    lookup n (pre ++ (n, x) :: post) = match lookup n post with | some w => some w | none => some x := by
+  induction pre with
+  | nil => simp only [List.nil_append, lookup]; cases lookup n post <;> simp
+  | cons p pre ih =>
+    obtain ⟨pk, pv⟩ := p
+    simp only [List.cons_append, lookup, ih]
+    cases lookup n post <;> rfl
+
+/-- **decode_error_case_sensitive** (C19). In a message whose `error` member is an object, a member of THAT
+object whose name is not exactly `code`, `message` or `data` — e.g. `Code`, `MESSAGE`, `Data` — has no
+influence on decoding, wherever it stands in the error object and wherever the error member stands. -/
+theorem decode_error_case_sensitive (k : Bytes) (v : JVal) (ea eb pre post : List (Bytes × JVal))
+    (h : k ∉ wireErrorNames) :
+    decodeMsg (.obj (pre ++ (wireDecode_Error_name, .obj (ea ++ (k, v) :: eb)) :: post)) =
+      decodeMsg (.obj (pre ++ (wireDecode_Error_name, .obj (ea ++ eb)) :: post)) := by
+  have hne : ∀ k', k' ≠ wireDecode_Error_name → ∀ x,
+      lookup k' (pre ++ (wireDecode_Error_name, x) :: post) = lookup k' (pre ++ post) :=
+    fun k' hk x => lookup_insert_ne k' _ x pre post (Ne.symm hk)
+  have herr : asWErr (lookup wireDecode_Error_name (pre ++ (wireDecode_Error_name, .obj (ea ++ (k, v) :: eb)) :: post)) =
+      asWErr (lookup wireDecode_Error_name (pre ++ (wireDecode_Error_name, .obj (ea ++ eb)) :: post)) := by
+    rw [lookup_at, lookup_at]
+    cases lookup wireDecode_Error_name post with
+    | some w => rfl
+    | none => exact asWErr_case_sensitive k v ea eb h
+  simp only [decodeMsg, asRaw]
+  rw [herr]
+  simp only [hne wireDecode_VersionTag_name (by decide), hne wireDecode_ID_name (by decide),
+    hne wireDecode_Method_name (by decide), hne wireDecode_Params_name (by decide), hne wireDecode_Result_name (by decide)]
+
+/-- `{"jsonrpc":"2.0","id":7,"error":{"code":-32000,"message":"boom","Code":7,"MESSAGE":"decoy"}}` decodes to
+the error -32000 "boom"; with only `Code` / `Message` the error is the zero error. -/
+example : decodeMsg (.obj [(wireDecode_VersionTag_name, .str wireVersion), (wireDecode_ID_name, .int 7),
+    (wireDecode_Error_name, .obj [(WireError_Code_name, .int (-32000)), (WireError_Message_name, .str [98]),
+      ([67, 111, 100, 101], .int 7), ([77, 69, 83, 83, 65, 71, 69], .str [100])])]) =
+    .ok (.response (.int 7) none (some ⟨-32000, [98], none⟩)) := by decide
+
+example : ([67, 111, 100, 101] : Bytes) ∉ wireErrorNames ∧ ([77, 69, 83, 83, 65, 71, 69] : Bytes) ∉ wireErrorNames ∧
+    ([68, 97, 116, 97] : Bytes) ∉ wireErrorNames := by decide
+
 /-- The case variants are indeed not wire names ("ID", "Id", "Method", "JSONRPC", "Params", …). -/
 example : ([73, 68] : Bytes) ∉ wireNames ∧ ([73, 100] : Bytes) ∉ wireNames ∧
     ([77, 101, 116, 104, 111, 100] : Bytes) ∉ wireNames ∧ ([74, 83, 79, 78, 82, 80, 67] : Bytes) ∉ wireNames ∧
